@@ -7,13 +7,17 @@ package main
 // (write error, short write with and without error, sync error), observing every
 // sink call, the error output and whether the logging call returned;
 // (c) (c10_seq.go) the same trees with JSON and console leaves fed sequences of full
-// entries (field trees, With chains), observing the bytes every sink call is handed.
+// entries (field trees, With chains), observing the bytes every sink call is handed;
+// (b'), (c') (c10_ws.go) the sinks of (b) and (c) behind zap's WriteSyncer combinators
+// (Lock, AddSync, NewMultiWriteSyncer, CombineWriteSyncers, Open, BufferedWriteSyncer),
+// the sequences continued after every failure, every logging call under a watchdog.
 
 import (
 	"bytes"
 	"errors"
 	"fmt"
 	"strings"
+	"sync"
 
 	"go.uber.org/zap"
 	"go.uber.org/zap/zapcore"
@@ -33,8 +37,19 @@ type recSink struct {
 	// a sink that itself logs (through an unrelated zap core) while it handles Write: the bytes it
 	// was handed must stay untouched for the whole call
 	nest zapcore.Core
+	// combinator cases: the logging call runs under a watchdog in its own goroutine; the event list is
+	// guarded, and a Sync that returned an error is noted (the known finding: its error is dropped)
+	mu       *sync.Mutex
+	syncFail *bool
 }
 
+func (s *recSink) rec(e SX) {
+	if s.mu != nil {
+		s.mu.Lock()
+		defer s.mu.Unlock()
+	}
+	*s.events = append(*s.events, e)
+}
 func (s *recSink) out() sinkOutcome {
 	if *s.entry < len(s.outs) {
 		return s.outs[*s.entry]
@@ -46,9 +61,9 @@ func (s *recSink) Write(p []byte) (int, error) {
 		_ = s.nest.Write(zapcore.Entry{Message: "sink is busy"}, []zapcore.Field{zap.Int("n", len(p)), zap.Reflect("r", map[string]int{"a": 1})})
 	}
 	if s.bytes {
-		*s.events = append(*s.events, L(I(0), I(s.id), B(append([]byte(nil), p...))))
+		s.rec(L(I(0), I(s.id), B(append([]byte(nil), p...))))
 	} else {
-		*s.events = append(*s.events, L(I(0), I(s.id)))
+		s.rec(L(I(0), I(s.id)))
 	}
 	switch s.out().kind {
 	case 1:
@@ -61,8 +76,11 @@ func (s *recSink) Write(p []byte) (int, error) {
 	return len(p), nil
 }
 func (s *recSink) Sync() error {
-	*s.events = append(*s.events, L(I(1), I(s.id)))
+	s.rec(L(I(1), I(s.id)))
 	if s.out().kind == 4 {
+		if s.syncFail != nil {
+			*s.syncFail = true
+		}
 		return fmt.Errorf("S%d.%d", s.id, *s.entry)
 	}
 	return nil
@@ -87,41 +105,44 @@ type coreSpec struct {
 	// sequence cases (c10_seq.go): the leaf's encoder kind is part of the case; nest = the sink logs
 	// through an unrelated core during Write (environment only: the model ignores it)
 	seq, con, nest bool
+	// the leaf's sink stands behind zap's WriteSyncer combinators (c10_ws.go); nil: the bare sink id/outs
+	ws *c10wsSpec
 }
 
-func (cs *coreSpec) build(entry *int, events *[]SX) zapcore.Core {
+func (cs *coreSpec) build(env *c10env) zapcore.Core {
 	switch cs.kind {
 	case 0:
 		enc := zapcore.NewJSONEncoder(zapcore.EncoderConfig{MessageKey: "m", LevelKey: "l", EncodeLevel: zapcore.LowercaseLevelEncoder})
-		return zapcore.NewCore(enc, &recSink{id: cs.id, outs: cs.outs, entry: entry, events: events}, zapcore.DebugLevel)
+		return zapcore.NewCore(enc, cs.leafWS().build(env, nil), zapcore.DebugLevel)
 	case 1:
 		var cores []zapcore.Core
 		for _, s := range cs.subs {
-			cores = append(cores, s.build(entry, events))
+			cores = append(cores, s.build(env))
 		}
 		return zapcore.NewTee(cores...)
 	default:
-		return fwdCore{cs.subs[0].build(entry, events)}
+		return fwdCore{cs.subs[0].build(env)}
 	}
+}
+
+// the WriteSyncer of a leaf: the combinator stack, or the bare sink
+func (cs *coreSpec) leafWS() *c10wsSpec {
+	if cs.ws != nil {
+		return cs.ws
+	}
+	return &c10wsSpec{kind: 0, id: cs.id, outs: cs.outs}
 }
 func (cs *coreSpec) sx() SX {
 	switch cs.kind {
 	case 0:
-		var outs []SX
-		for k, o := range cs.outs {
-			w, s := L(), L()
-			if o.kind == 1 || o.kind == 2 {
-				w = L(Str(fmt.Sprintf("W%d.%d", cs.id, k)))
-			}
-			if o.kind == 4 {
-				s = L(Str(fmt.Sprintf("S%d.%d", cs.id, k)))
-			}
-			outs = append(outs, L(w, s))
+		if cs.ws != nil {
+			return L(I(3), Bool(cs.con), Bool(cs.nest), cs.ws.sx())
 		}
+		outs := outsSX(cs.id, cs.outs)
 		if cs.seq {
-			return L(I(0), I(cs.id), L(outs...), Bool(cs.con), Bool(cs.nest))
+			return L(I(0), I(cs.id), outs, Bool(cs.con), Bool(cs.nest))
 		}
-		return L(I(0), I(cs.id), L(outs...))
+		return L(I(0), I(cs.id), outs)
 	case 1:
 		var subs []SX
 		for _, s := range cs.subs {
@@ -133,80 +154,89 @@ func (cs *coreSpec) sx() SX {
 	}
 }
 
+func outsSX(id int, outcomes []sinkOutcome) SX {
+	var outs []SX
+	for k, o := range outcomes {
+		w, s := L(), L()
+		if o.kind == 1 || o.kind == 2 {
+			w = L(Str(fmt.Sprintf("W%d.%d", id, k)))
+		}
+		if o.kind == 4 {
+			s = L(Str(fmt.Sprintf("S%d.%d", id, k)))
+		}
+		outs = append(outs, L(w, s))
+	}
+	return L(outs...)
+}
+
 type errOut struct{ bytes.Buffer }
 
 func (*errOut) Sync() error { return nil }
 
+// the error output of one entry: lines "<time> write error: e1; e2\n"
+func errOutSX(eo *errOut) (SX, int) {
+	lines := strings.Split(strings.TrimSuffix(eo.String(), "\n"), "\n")
+	if eo.Len() == 0 {
+		lines = nil
+	}
+	var msgs []SX
+	for _, ln := range lines {
+		i := strings.Index(ln, " write error: ")
+		if i < 0 {
+			msgs = append(msgs, Str("?"+ln))
+			continue
+		}
+		for _, m := range strings.Split(ln[i+len(" write error: "):], "; ") {
+			msgs = append(msgs, Str(m))
+		}
+	}
+	return L(msgs...), len(lines)
+}
+
 func c10sink(c *Ctx, cs *coreSpec, hi bool, n int, class string) {
-	entry := 0
-	var events []SX
+	env := newC10env(false)
 	eo := &errOut{}
-	core := cs.build(&entry, &events)
+	core := cs.build(env)
 	logger := zap.New(core, zap.ErrorOutput(eo))
 	lvl := zapcore.InfoLevel
 	if hi {
 		lvl = zapcore.DPanicLevel // above Error, no terminal action in production mode
 	}
 	var per []SX
-	returned := true
-	hasSync, hasFault := false, false
+	ret := 1
 	for k := 0; k < n; k++ {
-		entry = k
-		events = nil
+		env.begin(k)
 		eo.Reset()
-		func() {
-			defer func() {
-				if e := recover(); e != nil {
-					returned = false
-					c.Viol(fmt.Sprintf("a sink failure made the logging call panic: %v", e), cs.sx())
-				}
-			}()
-			logger.Log(lvl, "m")
-		}()
-		// error output: lines "<time> write error: e1; e2\n"
-		lines := strings.Split(strings.TrimSuffix(eo.String(), "\n"), "\n")
-		if eo.Len() == 0 {
-			lines = nil
+		// every logging call runs under a watchdog: a call that does not return is an observation
+		// (2 = blocked), not a hung harness
+		st, pmsg := c10guard(func() { logger.Log(lvl, "m") })
+		if st == 2 {
+			ret = 2
+			c10blocked(c, fmt.Sprintf("logging call %d of a sequence did not return (blocked) after an earlier sink failure", k), L(I(1), Bool(hi), cs.sx(), I(n)))
+			per = append(per, L(L(env.snapshot()...), L(), I(0)))
+			env.abandon()
+			break
 		}
-		var msgs []SX
-		for _, ln := range lines {
-			i := strings.Index(ln, " write error: ")
-			if i < 0 {
-				msgs = append(msgs, Str("?"+ln))
-				continue
-			}
-			for _, m := range strings.Split(ln[i+len(" write error: "):], "; ") {
-				msgs = append(msgs, Str(m))
-			}
+		if st == 0 {
+			ret = 0
+			c.Viol("a sink failure made the logging call panic: "+pmsg, cs.sx())
 		}
-		per = append(per, L(L(events...), L(msgs...), I(len(lines))))
+		msgs, nl := errOutSX(eo)
+		per = append(per, L(L(env.snapshot()...), msgs, I(nl)))
 	}
-	var walk func(*coreSpec)
-	walk = func(x *coreSpec) {
-		for _, o := range x.outs {
-			if o.kind != 0 {
-				hasFault = true
-			}
-			if o.kind == 4 && hi {
-				hasSync = true
-			}
-		}
-		for _, s := range x.subs {
-			walk(s)
-		}
+	syncFailed := env.syncFail // (before Stop/Close sync the sinks once more)
+	if !env.cleanup() && ret == 1 {
+		ret = 2
+		c10blocked(c, "stopping/closing the WriteSyncers after a sequence with sink failures did not return (blocked): a combinator was left locked", L(I(1), Bool(hi), cs.sx(), I(n)))
 	}
-	walk(cs)
 	meta := map[string]string{"class": class, "nt": "0"}
-	if hasFault {
+	if cs.hasFault(n) {
 		meta["nt"] = "1"
 	}
-	if hasSync {
+	if syncFailed {
 		// known finding: ioCore.Write ignores the sink's Sync error for entries above ErrorLevel
+		// (tagged only when a Sync that returned an error was actually made)
 		meta["kf"] = "iocore-sync-error-ignored"
-	}
-	ret := 0
-	if returned {
-		ret = 1
 	}
 	c.Emit(L(I(1), Bool(hi), cs.sx(), I(n)), L(L(per...), I(ret)), meta)
 }
@@ -279,26 +309,67 @@ func c10(c *Ctx) {
 			}
 		}
 	}
+	// (b') the same cores over zap's WriteSyncer combinators: every combinator shape over a failing sink,
+	// at every position of a tee of 1-3 cores (the healthy cores behind combinators as well), every failing
+	// outcome, transient / intermittent / permanent failures, below and above Error, and the sequence goes
+	// on for several entries after the failure: each later call must return and deliver its entry
+	shapes := c10wsShapes()
+	for nleaf := 1; nleaf <= 3; nleaf++ {
+		for bad := 0; bad < nleaf; bad++ {
+			for si := range shapes {
+				for pi := range c10failPatterns {
+					for _, fail := range []int{1, 2, 3, 4} {
+						for _, hi := range []bool{false, true} {
+							if fail == 4 && !hi {
+								continue // no Sync below Error
+							}
+							cs := c10wsTee(nleaf, bad, si, pi, fail, 5, false)
+							if cs == nil {
+								continue
+							}
+							c10sink(c, cs, hi, 5, "wsdir")
+						}
+					}
+				}
+			}
+		}
+	}
 	nrand := 600
 	if c.Thorough {
 		nrand = 40000
 	}
 	for i := 0; i < nrand; i++ {
 		nent := r.Range(1, 3)
+		wrapped := i%2 == 1 // half of the trees: leaves over random stacks of combinators, longer sequences
+		if wrapped {
+			nent = r.Range(2, 6)
+		}
 		id := 0
+		outs := func(underBuf bool) []sinkOutcome {
+			var os []sinkOutcome
+			sticky := wrapped && r.Chance(15)
+			for e := 0; e < nent; e++ {
+				o := 0
+				if r.Chance(45) || (sticky && e > 0) {
+					o = r.Range(1, 4)
+					if underBuf && o == 3 {
+						o = 1
+					}
+				}
+				os = append(os, sinkOutcome{kind: o})
+			}
+			return os
+		}
+		wg := &c10wsGen{r: r, id: &id, outs: outs}
 		var gen func(depth int) *coreSpec
 		gen = func(depth int) *coreSpec {
 			k := r.Intn(10)
 			if depth <= 0 || k < 5 {
-				cs := &coreSpec{kind: 0, id: id}
-				id++
-				for e := 0; e < nent; e++ {
-					o := 0
-					if r.Chance(45) {
-						o = r.Range(1, 4)
-					}
-					cs.outs = append(cs.outs, sinkOutcome{kind: o})
+				if wrapped && r.Chance(70) {
+					return &coreSpec{kind: 0, ws: wg.gen(3, false)}
 				}
+				cs := &coreSpec{kind: 0, id: id, outs: outs(false)}
+				id++
 				return cs
 			}
 			if k < 8 {
@@ -313,7 +384,11 @@ func c10(c *Ctx) {
 			}
 			return &coreSpec{kind: 2, subs: []*coreSpec{gen(depth - 1)}}
 		}
-		c10sink(c, gen(3), r.Bool(), nent, "rand")
+		class := "rand"
+		if wrapped {
+			class = "wsrand"
+		}
+		c10sink(c, gen(3), r.Bool(), nent, class)
 	}
 	_ = errors.New
 	// (c) sequences of full entries through trees of JSON and console cores: what every sink receives
